@@ -123,7 +123,7 @@ def classify(case, ctx=None, n1=4000):
                 nm, M = flatten_batch(res, n)
                 U = np.empty_like(M)
                 for j, name in enumerate(nm):
-                    U[:, j] = ss.norm.cdf(M[:, j]) if dist_for(name) == "normal" else M[:, j]
+                    U[:, j] = ss.norm.cdf(M[:, j]) if dist_for(name).startswith("normal") else M[:, j]
                 cache[stage] = (nm, M, U)
             return cache[stage]
 
